@@ -326,6 +326,9 @@ func c04Matrix(r *Run) {
 		defer v.Close()
 		verdict, _ := v.Verify(chains)
 		obs := "rejected"
+		if verdict == "panic" {
+			obs = "panic" // the candidate search dereferenced a field the authority key identifier does not carry (model: CandRes.panic)
+		}
 		var acceptedCert *x509.Certificate
 		for _, in := range v.V.VerifCRLChecker().VerifRepository().VerifEntries() {
 			if in.Present && in.Loaded && !in.StoreNil {
